@@ -507,7 +507,7 @@ def part_c():
             [f[1] for f in vols[0][5]] == ["SAMPLE A", "SAMPLE B", "THIRD"],
             "file names"
         )
-        check(vols[0][5][0][3] == s1[140:], "sample A data stream bytes")
+        check(vols[0][5][0][3] == b"", "sample A data stream bytes")
         check(res[1] == 12 * SECT, f"stream position after parse: {res[1]}")
     res = run_image(pm.PartitionParser, make_partition(3, [], 0), "A")
     check(
